@@ -397,6 +397,7 @@ PLANS["C10"] = {
 
 
 from . import conc as _conc  # noqa: E402
+from . import race as _race  # noqa: E402
 
 
 def _conc_tags(beh):
@@ -411,7 +412,7 @@ def conc_consts(main=("p1", "p2"), linked=(), steps=8):
 CORE_OVERRIDE = {"module": "MC_Core.tla", "const_keys": None, "executor": None, "tagger": None, "end_event": None,
                  "chunk": 400}
 PLANS["C11"] = {
-    "clauses": ["C11_NothingLost", "C01_Exact", "C02_Carried"],
+    "clauses": ["C11_NothingLost", "C11_NotesKept", "C01_Exact", "C02_Carried"],
     "module": "Concurrency.tla", "const_keys": ["ProcMain", "ProcLinked", "Mode", "Dev", "MaxSteps"],
     "executor": _conc.execute_conc, "tagger": _conc_tags, "end_event": {"ev": "reset", "run": "end"},
     "quick": [
@@ -421,6 +422,12 @@ PLANS["C11"] = {
              variants=[("-", "-")], per_tag=4),
         dict(name="three", consts=conc_consts(("p1", "p2"), ("p3",), 6), invariants=["G_C11_NothingLost"], budget=90,
              variants=[("-", "-")], per_tag=1),
+        # commits started at the same moment in the main work tree and in linked worktrees: the recorded schedule of
+        # their `git notes add` runs is validated against spec/NotesRace.tla (one round per enumerated interleaving)
+        dict(name="commit-race", consts={"Proc": ["p1", "p2"], "Mode": "gen", "Dev": ["notes_ref_no_cas"], "MaxSteps": 4},
+             invariants=["G_C11_NotesKept"], budget=40, variants=[("-", "-")], per_tag=1, repeat=7,
+             plan_override={"module": "NotesRace.tla", "const_keys": ["Proc", "Mode", "Dev", "MaxSteps"],
+                            "executor": _race.execute_race, "tagger": _race.race_tags}),
         # "the same as if those operations had run one after another": several agents reporting edits to several
         # files of one work tree one after another, in every order (core module)
         dict(name="serial", consts=consts(files=("f", "g"), alphabet=("edit_ins", "ckpt", "commit_all"), steps=7, uid=5,
@@ -432,6 +439,10 @@ PLANS["C11"] = {
              budget=200, variants=[("-", "-")], per_tag=3),
         dict(name="four", consts=conc_consts(("p1", "p2"), ("p3", "p4"), 8), invariants=["G_C11_NothingLost"],
              budget=400, variants=[("-", "-")], per_tag=1),
+        dict(name="commit-race", consts={"Proc": ["p1", "p2", "p3"], "Mode": "gen", "Dev": ["notes_ref_no_cas"], "MaxSteps": 6},
+             invariants=["G_C11_NotesKept"], budget=90, variants=[("-", "-")], per_tag=1, repeat=4,
+             plan_override={"module": "NotesRace.tla", "const_keys": ["Proc", "Mode", "Dev", "MaxSteps"],
+                            "executor": _race.execute_race, "tagger": _race.race_tags}),
         dict(name="serial", consts=consts(files=("f", "g"), alphabet=("edit_ins", "edit_del", "ckpt", "commit_all"), steps=8,
                                           uid=6, lines=4, commits=2), invariants=G_ALL, budget=1200,
              variants=RENDERS, per_tag=3, plan_override=CORE_OVERRIDE, timeout=2400),
